@@ -480,10 +480,10 @@ func bigOf(v any) (*big.Int, bool) {
 }
 
 type expTx struct {
-	from                                       string
-	nonce, gas, value, gasPrice, feeCap, tip    string
-	to, data                                   string
-	is1559                                     bool
+	from                                     string
+	nonce, gas, value, gasPrice, feeCap, tip string
+	to, data                                 string
+	is1559                                   bool
 }
 
 func z(b *big.Int) string {
